@@ -86,6 +86,7 @@ type symT struct {
 	k    *big.Int
 	sk   crypto.PrivateKey
 	pk   crypto.PublicKey
+	pkj  crypto.PublicKey   // the same key held as a non-normalised projective point (result of RemoveBLSPublicKeys)
 	sigs []crypto.Signature // per context
 }
 
@@ -151,10 +152,18 @@ func refSig(ci int, s *big.Int) []byte {
 
 type seqCase struct {
 	seq []int
+	// pol: internal representation of the public-key objects handed to the library:
+	// 0 affine (PublicKey() of the private key), 1 all projective (Z != 1), 2 / 3 mixed by symbol
+	pol int
 }
+
+var polNames = []string{"affine", "projective", "mixed-even", "mixed-odd"}
 
 func (c seqCase) String() string {
 	s := ""
+	if c.pol != 0 {
+		s = "[public keys " + polNames[c.pol] + "] "
+	}
 	for i, x := range c.seq {
 		if i > 0 {
 			s += ","
@@ -190,7 +199,7 @@ func replay(c seqCase, extra map[string]any) map[string]any {
 
 func main() {
 	run = ev.Start("C04", "exploration")
-	run.Budget(50*time.Second, 9*time.Minute)
+	run.Budget(4*time.Minute, 20*time.Minute)
 	if err := refbls.SelfTest(); err != nil {
 		run.Fatal("refbls self-test: %v", err)
 	}
@@ -235,11 +244,29 @@ func main() {
 		}
 		syms = append(syms, sy)
 	}
+	{
+		// the projective twins: Remove(Agg([pk, aux]), [aux]) is the same point with Z != 1
+		aux := mustSK(seedScalar("aux")).PublicKey()
+		for i := range syms {
+			ag, err := crypto.AggregateBLSPublicKeys([]crypto.PublicKey{syms[i].pk, aux})
+			if err != nil {
+				run.Fatal("%v", err)
+			}
+			pj, err := crypto.RemoveBLSPublicKeys(ag, []crypto.PublicKey{aux})
+			if err != nil {
+				run.Fatal("%v", err)
+			}
+			if !pj.Equals(syms[i].pk) || !bytes.Equal(pj.Encode(), syms[i].pk.Encode()) {
+				run.Violation("base:remove-does-not-return-the-key", "RemoveBLSPublicKeys(Agg([pk,aux]),[aux]) is not pk", map[string]any{"pk": ev.Hex(syms[i].pk.Encode()), "got": ev.Hex(pj.Encode())})
+			}
+			syms[i].pkj = pj
+		}
+	}
 	maxLen := 4
 	if run.Thorough() {
 		maxLen = 5
 	}
-	run.Set("rule", "All sequences of length 1..maxLen over the private-key alphabet {a, b, r-a, 1, r-1} (contains every permutation, duplicates, inverse pairs and sums equal to the identity). Per sequence: every set partition of the positions as a nesting (Agg of each block, then Agg of the results; singleton blocks go through a one-element Agg) plus left and right folds, for private keys, public keys and signatures under 4 (message, tag) contexts; the signature of the aggregated private key; RemoveBLSPublicKeys(Agg(all), B) for every subset B of the positions (incl. empty and everything), given as individual keys and as one pre-aggregated key; identity encodings / IsBLSSignatureIdentity / Equals(IdentityBLSPublicKey) on cancelling sequences; Verify of the aggregate under the aggregate key. Error shapes: empty lists, malformed signature of 7 kinds at each position, off-group signature at each position (accepted by design), ECDSA key at each position. Oracle: sum of scalars mod r, [sum]g2 and [sum]H(m) in math/big, compared as bytes through the c0||c1 codec. A case is distinct/non-trivial per (sequence, nesting, object kind) and per (sequence, removed subset).")
+	run.Set("rule", "All sequences of length 1..maxLen over the private-key alphabet {a, b, r-a, 1, r-1} (contains every permutation, duplicates, inverse pairs and sums equal to the identity). Every sequence is run under 4 policies for the internal representation of the public-key objects (affine from PublicKey(); projective with Z != 1 from RemoveBLSPublicKeys; two mixes). Per sequence: every set partition of the positions as a nesting (Agg of each block, then Agg of the results; singleton blocks go through a one-element Agg) plus left and right folds, for private keys, public keys and signatures under 4 (message, tag) contexts; the signature of the aggregated private key; RemoveBLSPublicKeys(Agg(all), B) for every subset B of the positions (incl. empty and everything), given as individual keys and as one pre-aggregated key; identity encodings / IsBLSSignatureIdentity / Equals(IdentityBLSPublicKey) on cancelling sequences; Verify of the aggregate under the aggregate key. Error shapes: empty lists, malformed signature of 7 kinds at each position, off-group signature at each position (accepted by design), ECDSA key at each position. Oracle: sum of scalars mod r, [sum]g2 and [sum]H(m) in math/big, compared as bytes through the c0||c1 codec. A case is distinct/non-trivial per (sequence, nesting, object kind) and per (sequence, removed subset).")
 	run.Set("max_sequence_length", maxLen)
 	run.Set("alphabet", []string{"a", "b", "r-a", "1", "r-1"})
 
@@ -247,7 +274,12 @@ func main() {
 	var gen func(cur []int)
 	gen = func(cur []int) {
 		if len(cur) > 0 {
-			cases = append(cases, seqCase{append([]int{}, cur...)})
+			for pol := range polNames {
+				if pol >= 2 && len(cur) < 2 {
+					continue
+				}
+				cases = append(cases, seqCase{append([]int{}, cur...), pol})
+			}
 		}
 		if len(cur) == maxLen {
 			return
@@ -273,6 +305,12 @@ func main() {
 		}
 		c := cases[ci]
 		L := len(c.seq)
+		pkv := func(x int) crypto.PublicKey {
+			if c.pol == 1 || (c.pol == 2 && x%2 == 0) || (c.pol == 3 && x%2 == 1) {
+				return syms[x].pkj
+			}
+			return syms[x].pk
+		}
 		sum := new(big.Int)
 		for _, x := range c.seq {
 			sum.Add(sum, syms[x].k)
@@ -339,7 +377,7 @@ func main() {
 					var lsk []crypto.PrivateKey
 					var lpk []crypto.PublicKey
 					for _, x := range c.seq {
-						lsk, lpk = append(lsk, syms[x].sk), append(lpk, syms[x].pk)
+						lsk, lpk = append(lsk, syms[x].sk), append(lpk, pkv(x))
 					}
 					rsk, rpk = aggSK(lsk), aggPK(lpk)
 					for i := range ctxs {
@@ -358,7 +396,7 @@ func main() {
 						var lsk []crypto.PrivateKey
 						var lpk []crypto.PublicKey
 						for _, pos := range blk {
-							lsk, lpk = append(lsk, syms[c.seq[pos]].sk), append(lpk, syms[c.seq[pos]].pk)
+							lsk, lpk = append(lsk, syms[c.seq[pos]].sk), append(lpk, pkv(c.seq[pos]))
 						}
 						s1, p1 := aggSK(lsk), aggPK(lpk)
 						if s1 == nil || p1 == nil {
@@ -390,16 +428,16 @@ func main() {
 						order[i] = L - 1 - i
 					}
 				}
-				rsk, rpk = syms[c.seq[order[0]]].sk, syms[c.seq[order[0]]].pk
+				rsk, rpk = syms[c.seq[order[0]]].sk, pkv(c.seq[order[0]])
 				for i := range ctxs {
 					rsig[i] = syms[c.seq[order[0]]].sigs[i]
 				}
 				for _, pos := range order[1:] {
 					x := syms[c.seq[pos]]
 					if n.fold == 1 {
-						rsk, rpk = aggSK([]crypto.PrivateKey{rsk, x.sk}), aggPK([]crypto.PublicKey{rpk, x.pk})
+						rsk, rpk = aggSK([]crypto.PrivateKey{rsk, x.sk}), aggPK([]crypto.PublicKey{rpk, pkv(c.seq[pos])})
 					} else {
-						rsk, rpk = aggSK([]crypto.PrivateKey{x.sk, rsk}), aggPK([]crypto.PublicKey{x.pk, rpk})
+						rsk, rpk = aggSK([]crypto.PrivateKey{x.sk, rsk}), aggPK([]crypto.PublicKey{pkv(c.seq[pos]), rpk})
 					}
 					if rsk == nil || rpk == nil {
 						return
@@ -480,9 +518,9 @@ func main() {
 				sa := new(big.Int)
 				for pos := 0; pos < L; pos++ {
 					if mask>>pos&1 == 1 {
-						B = append(B, syms[c.seq[pos]].pk)
+						B = append(B, pkv(c.seq[pos]))
 					} else {
-						A = append(A, syms[c.seq[pos]].pk)
+						A = append(A, pkv(c.seq[pos]))
 						sa.Add(sa, syms[c.seq[pos]].k)
 					}
 				}
@@ -511,6 +549,10 @@ func main() {
 						}
 					} else if !got.Equals(idPK) || !bytes.Equal(got.Encode(), idEnc) {
 						fail("remove:everything-not-identity", "removing every key does not give the identity key", map[string]any{"removed_mask": mask, "variant": vi, "got": ev.Hex(got.Encode())})
+					}
+					// the result (a projective point) is itself a key: adding B back must give Agg(A+B) again
+					if back := aggPK(append([]crypto.PublicKey{got}, B...)); back != nil && (!bytes.Equal(back.Encode(), wantPK) || !back.Equals(flatPK)) {
+						fail("remove:re-aggregation-mismatch", "Agg([Remove(Agg(A+B),B)] + B) is not Agg(A+B)", map[string]any{"removed_mask": mask, "variant": vi, "got": ev.Hex(back.Encode()), "expected": ev.Hex(wantPK)})
 					}
 					// the result must still behave as a key whose identity flag is right
 					ok, err := got.Verify(refSig(0, sa), ctxs[0].msg, crypto.NewExpandMsgXOFKMAC128(ctxs[0].tag))
